@@ -26,9 +26,14 @@
       execute_internal] first statement, [truncate/mod.rs] for every listed table before any work, and
       [truncate/core.rs: execute_truncate_cascade] for the dependency closure of ONE listed table at a time (the
       loop over the listed tables truncates table i before the closure of table i+1 is checked).
-    - DELETE evaluates its WHERE clause with [matches!(evaluator.eval(..), Ok(Boolean(true)))]
-      ([delete/executor.rs: collect_rows_with_scan]): an error raised inside a WHERE subquery - including
-      PermissionDenied - makes the row "not selected"; the statement reports success.
+    - DELETE and UPDATE propagate the errors of their WHERE clause ([delete/executor.rs:
+      collect_rows_with_scan] evaluates with [?]; until the fix "same truth-value rule (and the same errors) as
+      SELECT ... WHERE" DELETE used [matches!(eval(..), Ok(Boolean(true)))] and swallowed them).
+    - the window PARTITION BY clause still swallows: [evaluator/window/partitioning.rs: partition_rows] maps an
+      evaluation error of a partition expression to NULL ([eval_fn(..).unwrap_or(SqlValue::Null)]), so a
+      PermissionDenied raised by a subquery there makes the statement succeed (without the subquery's rows).
+      (The window ORDER BY clause is evaluated by a toy evaluator, [evaluator/window/utils.rs:
+      evaluate_expression], which never runs a subquery at all - for any role; not an access path.)
     - referential actions ([delete/integrity.rs], [update/foreign_keys.rs]) write the child table without a check
       (SQL: they run with the authority of the constraint, [ARefWrite] below; not counted as a defect).
     Model file: definitions only. *)
@@ -131,6 +136,7 @@ Inductive path : Type :=
 | P_count_star | P_sum | P_group_by
 | P_count_star_order_by | P_count_star_limit | P_count_star_union_arm | P_count_star_with_cte | P_count_star_scalar_limit
 | P_in_index_order_by | P_in_index_group_by | P_in_index_partition_by
+| P_window_partition_subquery
 (* writes *)
 | P_insert_values | P_insert_select | P_insert_select_columns | P_insert_select_bulk | P_insert_select_subquery
 | P_update_plain | P_update_pk | P_update_where_subquery | P_update_set_subquery | P_update_where_exists
@@ -148,6 +154,7 @@ Definition all_paths : list path :=
     P_count_star; P_sum; P_group_by;
     P_count_star_order_by; P_count_star_limit; P_count_star_union_arm; P_count_star_with_cte; P_count_star_scalar_limit;
     P_in_index_order_by; P_in_index_group_by; P_in_index_partition_by;
+    P_window_partition_subquery;
     P_insert_values; P_insert_select; P_insert_select_columns; P_insert_select_bulk; P_insert_select_subquery;
     P_update_plain; P_update_pk; P_update_where_subquery; P_update_set_subquery; P_update_where_exists;
     P_delete_where; P_delete_pk; P_delete_all; P_delete_where_subquery; P_delete_where_exists;
@@ -173,6 +180,8 @@ Definition program (p : path) : list action :=
   | P_count_star_scalar_limit => read_M ++ [ARead TS]
   (* the index-optimised IN (subquery): table.scan() without a check *)
   | P_in_index_order_by | P_in_index_group_by | P_in_index_partition_by => read_M ++ [ARead TS]
+  (* window PARTITION BY: the subquery's refusal is swallowed *)
+  | P_window_partition_subquery => read_M ++ [ACheckSoft TS ASel; ARead TS]
   | P_insert_values => [ACheck TT AIns; AWrite TT AIns]
   | P_insert_select | P_insert_select_columns => ACheck TT AIns :: read_S ++ [AWrite TT AIns]
   (* try_bulk_transfer: src_table.scan() without a check *)
@@ -183,8 +192,7 @@ Definition program (p : path) : list action :=
   | P_update_where_subquery | P_update_set_subquery | P_update_where_exists =>
       ACheck TU AUpd :: read_S ++ [AWrite TU AUpd]
   | P_delete_where | P_delete_pk | P_delete_all => [ACheck TU ADel; AWrite TU ADel]
-  (* DELETE swallows errors of its WHERE clause *)
-  | P_delete_where_subquery | P_delete_where_exists => [ACheck TU ADel; ACheckSoft TS ASel; ARead TS; AWrite TU ADel]
+  | P_delete_where_subquery | P_delete_where_exists => ACheck TU ADel :: read_S ++ [AWrite TU ADel]
   | P_truncate => [ACheck TU ADel; AWrite TU ADel]
   | P_truncate_multi => [ACheck TU ADel; ACheck TM ADel; AWrite TU ADel; AWrite TM ADel]
   | P_truncate_cascade => [ACheck TP ADel; ACheck TD ADel; ACheck TP ADel; AWrite TD ADel; AWrite TP ADel]
@@ -208,7 +216,8 @@ Definition required (p : path) : list (tbl * access) :=
   | P_join_inner | P_join_secret_left | P_join_comma | P_left_join | P_union
   | P_scalar_subquery | P_in_subquery_where | P_in_subquery_select_list | P_not_in_subquery
   | P_exists_correlated | P_quantified_any | P_count_star_scalar_limit
-  | P_in_index_order_by | P_in_index_group_by | P_in_index_partition_by => [(TM, ASel); (TS, ASel)]
+  | P_in_index_order_by | P_in_index_group_by | P_in_index_partition_by
+  | P_window_partition_subquery => [(TM, ASel); (TS, ASel)]
   | P_insert_values => [(TT, AIns)]
   | P_insert_select | P_insert_select_columns | P_insert_select_bulk => [(TT, AIns); (TS, ASel)]
   | P_insert_select_subquery => [(TT, AIns); (TM, ASel); (TS, ASel)]
@@ -229,7 +238,7 @@ Definition required (p : path) : list (tbl * access) :=
 Inductive defect : Type :=
 | D_count_star_fast_path | D_in_subquery_index_path | D_insert_select_bulk_transfer
 | D_insert_on_duplicate_key_update | D_insert_replace
-| D_delete_where_error_swallowed | D_truncate_multi_cascade_partial.
+| D_window_clause_error_swallowed | D_truncate_multi_cascade_partial.
 
 Definition defect_of (p : path) : option defect :=
   match p with
@@ -239,7 +248,7 @@ Definition defect_of (p : path) : option defect :=
   | P_insert_select_bulk => Some D_insert_select_bulk_transfer
   | P_on_duplicate_key_update => Some D_insert_on_duplicate_key_update
   | P_replace_into | P_insert_or_replace => Some D_insert_replace
-  | P_delete_where_subquery | P_delete_where_exists => Some D_delete_where_error_swallowed
+  | P_window_partition_subquery => Some D_window_clause_error_swallowed
   | P_truncate_multi_cascade => Some D_truncate_multi_cascade_partial
   | _ => None
   end.
@@ -252,7 +261,7 @@ Definition unguarded_known (p : path) : bool :=
   | _ => false
   end.
 Definition silent_known (p : path) : bool :=
-  match defect_of p with Some D_delete_where_error_swallowed => true | _ => false end.
+  match defect_of p with Some D_window_clause_error_swallowed => true | _ => false end.
 Definition partial_known (p : path) : bool :=
   match defect_of p with Some D_truncate_multi_cascade_partial => true | _ => false end.
 
@@ -264,7 +273,7 @@ Definition program_fixed (p : path) : list action :=
   | P_insert_select_bulk => ACheck TT AIns :: read_S ++ [AWrite TT AIns]
   | P_on_duplicate_key_update => [ACheck TU AIns; ACheck TU AUpd; AWrite TU AUpd; AWrite TU AIns]
   | P_replace_into | P_insert_or_replace => [ACheck TU AIns; ACheck TU ADel; AWrite TU ADel; AWrite TU AIns]
-  | P_delete_where_subquery | P_delete_where_exists => ACheck TU ADel :: read_S ++ [AWrite TU ADel]
+  | P_window_partition_subquery => read_M ++ read_S
   | P_truncate_multi_cascade =>
       [ACheck TU ADel; ACheck TP ADel; ACheck TU ADel; ACheck TD ADel; ACheck TP ADel;
        AWrite TU ADel; AWrite TD ADel; AWrite TP ADel]
